@@ -98,8 +98,14 @@ for _p, _x in (("C01", "io"), ("C01", "zst"), ("C03", "zst"), ("C09", "io"), ("C
 for _p, _x in (("C06", "io"), ("C09", "zst"), ("C12", "zst"), ("C13", "zst"), ("C20", "io")):
     PLANS[_p]["quick"].append({"cfg": "dbg", "prof": _p + _x, "runs": 100_000})
     PLANS[_p]["thorough"] += [{"cfg": c, "prof": _p + _x, "runs": 4_000_000} for c in ("dbg", "rel")]
+PLANS["C02"]["quick"].append({"cfg": "dbg", "prof": "C02zst", "runs": 100_000})
+PLANS["C02"]["thorough"] += [{"cfg": c, "prof": "C02zst", "runs": 4_000_000} for c in ("dbg", "rel")]
+# capacity 160 with 128-byte elements (a 20 KiB array): thresholds on the byte size of the storage
+for _p in ("C01", "C07", "C20"):
+    PLANS[_p]["quick"].append({"cfg": "dbg-big", "prof": _p + "huge", "runs": 4_000})
+    PLANS[_p]["thorough"].append({"cfg": "dbg-big", "prof": _p + "huge", "runs": 200_000})
 # 128-byte elements
-for _p in ("C01", "C03", "C05", "C06", "C09", "C10", "C12", "C20"):
+for _p in ("C01", "C02", "C03", "C05", "C06", "C07", "C08", "C09", "C10", "C11", "C12", "C13", "C20"):
     PLANS[_p]["quick"].append({"cfg": "dbg-big", "prof": _p, "runs": 100_000})
     PLANS[_p]["thorough"].append({"cfg": "dbg-big", "prof": _p, "runs": 5_000_000})
 PLANS["C04"]["quick"].append({"cfg": "dbg", "prof": "C04io", "mode": "garbage", "runs": 100_000})
